@@ -22,6 +22,8 @@ type Scenario struct {
 	MutsPer int      `json:"mutsPer"`
 	Nest    [][2]int `json:"nest"`
 	Veto    [][2]int `json:"veto"`
+	// Prep: <caller, k> operations that are Eval (k odd) / CanAdd (k even): PrependMut
+	Prep [][2]int `json:"prep"`
 }
 
 func stateOf(c, k int) string    { return fmt.Sprintf("S%d_%d", c, k) }
@@ -97,7 +99,7 @@ func (t *popTracer) TransitionEnd(tx *am.Transition) {
 }
 
 var Gates = []string{"qm.done", "pq.enter", "pq.casLost", "pq.casWon", "pq.popped",
-	"pq.loopExit", "pq.released", "pq.queueEnd", "start", "return"}
+	"pq.loopExit", "pq.released", "pq.queueEnd", "start", "return", "eval.in"}
 
 // Run executes the scenario under the schedule `prefix` (role ids; once the
 // prefix is exhausted the lowest enabled role runs). It returns the recorded
@@ -120,6 +122,10 @@ func Run(sc Scenario, prefix []int) (lines []any, taken []int, enabled [][]int) 
 	}
 	for _, v := range sc.Veto {
 		vetoed[stateOf(v[0], v[1])] = true
+	}
+	prep := map[[2]int]bool{}
+	for _, v := range sc.Prep {
+		prep[v] = true
 	}
 	names = append(names, am.StateException)
 	tr := &popTracer{TracerNoOp: &am.TracerNoOp{Id: "pop"}}
@@ -176,6 +182,27 @@ func Run(sc Scenario, prefix []int) (lines []any, taken []int, enabled [][]int) 
 			for k := 1; k <= sc.MutsPer; k++ {
 				mu.Lock(); curK[c] = k; mu.Unlock()
 				s.Gate("start")
+				if prep[[2]int{c, k}] {
+					var r am.Result = am.Executed
+					if k%2 == 1 {
+						ok := m.Eval("verif", func() {
+							mu.Lock(); hopen++; lines = append(lines, HandlerEv{"hstart", "eval", hopen}); mu.Unlock()
+							s.Gate("eval.in")
+							mu.Lock(); hopen--; lines = append(lines, HandlerEv{"hend", "eval", hopen}); mu.Unlock()
+						}, nil)
+						if !ok {
+							r = am.Canceled
+						}
+					} else {
+						r = m.CanAdd1(stateOf(c, k), nil)
+						if r != am.Canceled {
+							r = am.Executed
+						}
+					}
+					mu.Lock(); results[[2]int{c, k}] = r; mu.Unlock()
+					s.Gate("return")
+					continue
+				}
 				r := m.Add1(stateOf(c, k), nil)
 				mu.Lock(); results[[2]int{c, k}] = r; mu.Unlock()
 				if r != am.Executed && r != am.Canceled {
@@ -278,6 +305,9 @@ func Run(sc Scenario, prefix []int) (lines []any, taken []int, enabled [][]int) 
 			}
 			rt := Returned{Role: c, K: k, State: stateOf(c, k), Res: resStr(r),
 				Active: m.Is1(stateOf(c, k)), Vetoed: vetoed[stateOf(c, k)]}
+			if prep[[2]int{c, k}] {
+				continue
+			}
 			if r != am.Executed && r != am.Canceled {
 				rt.Tick = uint64(r)
 				rt.WqOpen = open(r)
